@@ -23,7 +23,7 @@ RULE = (
     "(None, 1, 3..9) and iteration budget 3..40. Non-trivial = the objective spy recorded >= 3 "
     "evaluations and all were recomputed; distinct = descriptor hash."
 )
-MIN_NONTRIVIAL = {"quick": 5, "thorough": 100}
+MIN_NONTRIVIAL = {"quick": 5, "thorough": 250}
 SHARDS = {"quick": 6, "thorough": 16}
 WATCHDOG_S = {"quick": 900, "thorough": 7200}
 GENERATOR = {"rows": "60..200", "tau": "40..400 days", "M": "1e2..1e5", "p_initial": "5000..9000 psi", "n_iter": "3..40", "windows": [None, 1, 3, 5, 9]}
@@ -74,7 +74,7 @@ def setup(ck):
 
 def generate(ck):
     rng = ck.rng
-    n = 7 if ck.tier == "quick" else 150
+    n = 7 if ck.tier == "quick" else 400
     descs = []
     for i in range(n):
         rows = int(rng.integers(60, 201))
